@@ -3275,6 +3275,847 @@ fn beyond_mode(out: &mut Out, rng: &mut Rng, thorough: bool) {
 	}
 }
 
+
+// ---------------------------------------------------------------------------------------------
+// zip: the state-archive path -- `util/src/zip.rs` (`create_zip`, `extract_files`),
+// `txhashset::zip_read` / `zip_write` / `file_list`, `Chain::txhashset_read` / `txhashset_write` --
+// and the life cycle of the cached `Segmenter` (`Chain::segmenter`) while the serving chain grows
+// ---------------------------------------------------------------------------------------------
+
+fn crc32(data: &[u8]) -> u32 {
+	let mut c: u32 = 0xFFFF_FFFF;
+	for b in data {
+		c ^= *b as u32;
+		for _ in 0..8 {
+			c = if c & 1 != 0 { (c >> 1) ^ 0xEDB8_8320 } else { c >> 1 };
+		}
+	}
+	!c
+}
+
+/// an entry of a zip archive (method "stored"), written / parsed by hand so that the archives the
+/// receiving side is fed do not depend on the code under test
+#[derive(Clone)]
+struct ZEntry {
+	name: String,
+	data: Vec<u8>,
+	crc_ok: bool,
+}
+
+fn write_zip(entries: &[ZEntry]) -> Vec<u8> {
+	let mut o: Vec<u8> = vec![];
+	let mut cd: Vec<u8> = vec![];
+	for e in entries {
+		let off = o.len() as u32;
+		let crc = if e.crc_ok { crc32(&e.data) } else { crc32(&e.data) ^ 0x5a5a_5a5a };
+		let n = e.name.as_bytes();
+		let len = e.data.len() as u32;
+		o.extend_from_slice(&0x0403_4b50u32.to_le_bytes());
+		for v in [20u16, 0, 0, 0, 0x21] {
+			o.extend_from_slice(&v.to_le_bytes());
+		}
+		o.extend_from_slice(&crc.to_le_bytes());
+		o.extend_from_slice(&len.to_le_bytes());
+		o.extend_from_slice(&len.to_le_bytes());
+		o.extend_from_slice(&(n.len() as u16).to_le_bytes());
+		o.extend_from_slice(&0u16.to_le_bytes());
+		o.extend_from_slice(n);
+		o.extend_from_slice(&e.data);
+		cd.extend_from_slice(&0x0201_4b50u32.to_le_bytes());
+		for v in [(3u16 << 8) | 20, 20, 0, 0, 0, 0x21] {
+			cd.extend_from_slice(&v.to_le_bytes());
+		}
+		cd.extend_from_slice(&crc.to_le_bytes());
+		cd.extend_from_slice(&len.to_le_bytes());
+		cd.extend_from_slice(&len.to_le_bytes());
+		cd.extend_from_slice(&(n.len() as u16).to_le_bytes());
+		for v in [0u16, 0, 0, 0] {
+			cd.extend_from_slice(&v.to_le_bytes());
+		}
+		cd.extend_from_slice(&(0o100644u32 << 16).to_le_bytes());
+		cd.extend_from_slice(&off.to_le_bytes());
+		cd.extend_from_slice(n);
+	}
+	let cd_off = o.len() as u32;
+	o.extend_from_slice(&cd);
+	o.extend_from_slice(&0x0605_4b50u32.to_le_bytes());
+	for v in [0u16, 0, entries.len() as u16, entries.len() as u16] {
+		o.extend_from_slice(&v.to_le_bytes());
+	}
+	o.extend_from_slice(&(cd.len() as u32).to_le_bytes());
+	o.extend_from_slice(&cd_off.to_le_bytes());
+	o.extend_from_slice(&0u16.to_le_bytes());
+	o
+}
+
+fn parse_zip(b: &[u8]) -> Option<Vec<ZEntry>> {
+	let rd16 = |i: usize| -> Option<usize> { b.get(i..i + 2).map(|x| u16::from_le_bytes([x[0], x[1]]) as usize) };
+	let rd32 = |i: usize| -> Option<usize> { b.get(i..i + 4).map(|x| u32::from_le_bytes([x[0], x[1], x[2], x[3]]) as usize) };
+	if b.len() < 22 {
+		return None;
+	}
+	let mut eocd = b.len() - 22;
+	loop {
+		if rd32(eocd)? == 0x0605_4b50 {
+			break;
+		}
+		if eocd == 0 {
+			return None;
+		}
+		eocd -= 1;
+	}
+	let n = rd16(eocd + 10)?;
+	let mut p = rd32(eocd + 16)?;
+	let mut v = vec![];
+	for _ in 0..n {
+		if rd32(p)? != 0x0201_4b50 {
+			return None;
+		}
+		let method = rd16(p + 10)?;
+		let crc = rd32(p + 16)? as u32;
+		let csize = rd32(p + 20)?;
+		let nlen = rd16(p + 28)?;
+		let elen = rd16(p + 30)?;
+		let clen = rd16(p + 32)?;
+		let off = rd32(p + 42)?;
+		let name = String::from_utf8_lossy(b.get(p + 46..p + 46 + nlen)?).to_string();
+		if method != 0 || rd32(off)? != 0x0403_4b50 {
+			return None;
+		}
+		let lnlen = rd16(off + 26)?;
+		let lelen = rd16(off + 28)?;
+		let start = off + 30 + lnlen + lelen;
+		let data = b.get(start..start + csize)?.to_vec();
+		let crc_ok = crc32(&data) == crc;
+		v.push(ZEntry { name, data, crc_ok });
+		p += 46 + nlen + elen + clen;
+	}
+	Some(v)
+}
+
+fn walk_files(dir: &std::path::Path, base: &std::path::Path, m: &mut BTreeMap<String, Vec<u8>>) {
+	if let Ok(rd) = std::fs::read_dir(dir) {
+		for e in rd.flatten() {
+			let p = e.path();
+			if p.is_dir() {
+				walk_files(&p, base, m);
+			} else {
+				let name = p.strip_prefix(base).map(|x| x.to_string_lossy().to_string()).unwrap_or_default();
+				m.insert(name, std::fs::read(&p).unwrap_or_default());
+			}
+		}
+	}
+}
+
+fn hx(b: &[u8]) -> String {
+	if b.is_empty() {
+		"-".to_string()
+	} else {
+		hex(b)
+	}
+}
+
+fn entries_str(v: &[ZEntry]) -> String {
+	let p: Vec<String> = v.iter().map(|e| format!("{}={}={}", e.name, hx(&e.data), e.crc_ok as u8)).collect();
+	format!("[{}]", p.join(","))
+}
+
+/// `create_zip` / `extract_files` on small directory trees and hand-written archives, line by line
+/// against `Model/SegZip.lean`
+fn zip_util(out: &mut Out, rng: &mut Rng, st: &mut Stats, work: &str, cases: u64) {
+	use std::path::PathBuf;
+	let pool = ["a", "b/c", "b/d", "k/l/m", "output/pmmr_data.bin", "output/pmmr_hash.bin", "kernel/pmmr_data.bin", "x.y"];
+	for case in 0..cases {
+		// --- create_zip
+		let root = PathBuf::from(format!("{}/zipmk/{}", work, case));
+		let src = root.join("src");
+		let _ = std::fs::create_dir_all(&src);
+		let mut dir: BTreeMap<String, Vec<u8>> = BTreeMap::new();
+		for p in pool.iter() {
+			if rng.chance(3, 5) {
+				let n = rng.below(6) as usize;
+				let data = rng.bytes(n);
+				let f = src.join(p);
+				let _ = std::fs::create_dir_all(f.parent().unwrap());
+				std::fs::write(&f, &data).unwrap();
+				dir.insert(p.to_string(), data);
+			}
+		}
+		let mut files: Vec<String> = vec![];
+		let mut seen: BTreeSet<String> = BTreeSet::new();
+		for _ in 0..rng.below(9) {
+			let base = if rng.chance(1, 6) { (*rng.pick(&["nope", "b/zz", "output/pmmr_prun.bin"])).to_string() } else { (*rng.pick(&pool)).to_string() };
+			if !seen.insert(base.clone()) {
+				continue;
+			}
+			let deco = match rng.below(5) {
+				0 => format!("./{}", base),
+				1 => base.replace("/", "//"),
+				2 => base.replace("/", "/./"),
+				_ => base.clone(),
+			};
+			if deco != base {
+				st.inc("mk:decorated-name");
+			}
+			files.push(deco);
+		}
+		let zp = root.join("out.zip");
+		let res = {
+			let f = std::fs::File::create(&zp).unwrap();
+			catch(AssertUnwindSafe(|| grin_util::zip::create_zip(&f, &src, files.iter().map(PathBuf::from).collect())))
+		};
+		let rhs = match res {
+			Ok(Ok(())) => match parse_zip(&std::fs::read(&zp).unwrap_or_default()) {
+				Some(v) => {
+					st.add("mk:entries", v.len() as u64);
+					entries_str(&v)
+				}
+				None => "unparsable".to_string(),
+			},
+			Ok(Err(_)) => "err".to_string(),
+			Err(_) => "panic".to_string(),
+		};
+		let d: Vec<String> = dir.iter().map(|(k, v)| format!("{}={}", k, hx(v))).collect();
+		out.line(&format!("seg zip mk [{}] [{}]", d.join(","), files.join(",")), &rhs);
+		st.inc("mk:cases");
+		let _ = std::fs::remove_dir_all(&root);
+
+		// --- extract_files from a hand-written archive
+		let root = PathBuf::from(format!("{}/zipx/{}", work, case));
+		let dest = root.join("in").join("dest");
+		let _ = std::fs::create_dir_all(&dest);
+		let evil = ["../evil", "/abs/evil", "q/../../evil2", "b\\c", "./x.y", "..", "k/l/m/", "../../../evil3", "output/../../evil4"];
+		let mut entries: Vec<ZEntry> = vec![];
+		for _ in 0..rng.below(8) {
+			let name = if rng.chance(1, 3) { (*rng.pick(&evil)).to_string() } else { (*rng.pick(&pool)).to_string() };
+			let n = rng.below(5) as usize;
+			entries.push(ZEntry { name, data: rng.bytes(n), crc_ok: !rng.chance(1, 10) });
+		}
+		let mut files: Vec<String> = vec![];
+		for e in &entries {
+			if rng.chance(3, 5) {
+				files.push(e.name.clone());
+			}
+		}
+		for _ in 0..rng.below(3) {
+			files.push((*rng.pick(&["nope", "b/zz", "../evil", "a"])).to_string());
+		}
+		for i in (1..files.len()).rev() {
+			let j = rng.below(i as u64 + 1) as usize;
+			files.swap(i, j);
+		}
+		let zp = root.join("in.zip");
+		std::fs::write(&zp, write_zip(&entries)).unwrap();
+		let res = {
+			let f = std::fs::File::open(&zp).unwrap();
+			catch(AssertUnwindSafe(|| grin_util::zip::extract_files(f, &dest, files.iter().map(PathBuf::from).collect())))
+		};
+		let _ = std::fs::remove_file(&zp);
+		let mut found: BTreeMap<String, Vec<u8>> = BTreeMap::new();
+		walk_files(&root, &root, &mut found);
+		let mut shown: Vec<String> = vec![];
+		for (k, v) in &found {
+			match k.strip_prefix("in/dest/") {
+				Some(rel) => shown.push(format!("{}={}", rel, hx(v))),
+				None => {
+					out.raw(&format!(
+						"#ORACLE-FAIL C16 zip: extract_files wrote outside its destination directory: {} (archive {} files [{}])",
+						k,
+						entries_str(&entries),
+						files.join(",")
+					));
+				}
+			}
+		}
+		let listed: BTreeSet<&String> = files.iter().collect();
+		let rhs = match res {
+			Ok(Ok(())) => {
+				st.add("x:files-written", shown.len() as u64);
+				st.add("x:unlisted-entries-ignored", entries.iter().filter(|e| !listed.contains(&e.name)).count() as u64);
+				format!("[{}]", shown.join(","))
+			}
+			Ok(Err(_)) => {
+				st.inc("x:err");
+				"err".to_string()
+			}
+			Err(_) => "panic".to_string(),
+		};
+		out.line(&format!("seg zip x {} [{}]", entries_str(&entries), files.join(",")), &rhs);
+		st.inc("x:cases");
+		let _ = std::fs::remove_dir_all(&root);
+	}
+}
+
+/// what a node shows of its state: (head hash, roots, unspent outputs, full validation)
+fn node_obs_c(c: &grin_chain::Chain, kit: &Kit) -> (Hash, String, Vec<usize>, bool) {
+	let roots = {
+		let ts = c.txhashset();
+		let ts = ts.read();
+		match ts.roots() {
+			Ok(r) => format!(
+				"{}:{}:{}:{}",
+				hex(&r.output_roots.pmmr_root.as_bytes()[..8]),
+				hex(&r.output_roots.bitmap_root.as_bytes()[..8]),
+				hex(&r.rproof_root.as_bytes()[..8]),
+				hex(&r.kernel_root.as_bytes()[..8])
+			),
+			Err(_) => "no-roots".to_string(),
+		}
+	};
+	let mut u = vec![];
+	for o in &kit.outs {
+		if let Ok(Some(_)) = c.get_unspent(o.commit) {
+			u.push(o.id);
+		}
+	}
+	(c.head().unwrap().last_block_h, roots, u, c.validate(false).is_ok())
+}
+fn node_obs(s: &Subject, kit: &Kit) -> (Hash, String, Vec<usize>, bool) {
+	node_obs_c(s.c(), kit)
+}
+
+/// a fresh node with the headers synced, in its own directory (the sandbox of `txhashset_write`
+/// is `<parent of the chain dir>/tmp`)
+fn fresh_receiver(work: &str, tag: &str, kit: &Kit, headers: &[grin_core::core::BlockHeader]) -> Option<Subject> {
+	let dir = format!("{}/{}/chain", work, tag);
+	let _ = std::fs::create_dir_all(&dir);
+	let dest = Subject::new(&dir, &kit.genesis);
+	if dest.sync_headers(headers) != "ok" {
+		return None;
+	}
+	Some(dest)
+}
+
+/// one `Chain::txhashset_write` of the archive `bytes`: "replaced" | "ban" | "notneeded" | "failed:<class>" | "panic"
+fn zip_write_once(dest: &Subject, work: &str, tag: &str, h: Hash, bytes: &[u8]) -> String {
+	let path = format!("{}/{}/incoming.zip", work, tag);
+	let _ = std::fs::create_dir_all(format!("{}/{}", work, tag));
+	std::fs::write(&path, bytes).unwrap();
+	let f = std::fs::File::open(&path).unwrap();
+	let status = SyncState::new();
+	let r = catch(AssertUnwindSafe(|| dest.c().txhashset_write(h, f, &status)));
+	let _ = std::fs::remove_file(&path);
+	match r {
+		Ok(Ok(false)) => "replaced".to_string(),
+		Ok(Ok(true)) => "ban".to_string(),
+		Ok(Err(e)) => {
+			let c = error_class(&e);
+			if format!("{:?}", e).contains("not needed") {
+				"notneeded".to_string()
+			} else {
+				format!("failed:{}", c)
+			}
+		}
+		Err(m) => format!("panic:{}", m),
+	}
+}
+
+/// state sync of a fresh node from `segmenter`, every requested segment served honestly and in
+/// the order asked: Ok(rounds) when `validate_complete_state` succeeded
+fn plain_pibd(dest: &Subject, segmenter: &grin_chain::txhashset::Segmenter, ah: &grin_core::core::BlockHeader) -> Result<u64, String> {
+	let deseg = dest.c().desegmenter(ah).map_err(|e| format!("desegmenter: {}", error_class(&e)))?;
+	let mut rounds = 0u64;
+	loop {
+		rounds += 1;
+		if rounds > 80 {
+			return Err("not complete after 80 rounds of honest service".to_string());
+		}
+		let mut guard = deseg.write();
+		let d = guard.as_mut().ok_or("no desegmenter")?;
+		for sid in d.next_desired_segments(15) {
+			let id = sid.identifier;
+			let r = match sid.segment_type {
+				SegmentType::Bitmap => segmenter.bitmap_segment(id).and_then(|(s, r)| d.add_bitmap_segment(s, r)),
+				SegmentType::Output => segmenter.output_segment(id).and_then(|(s, r)| d.add_output_segment(s, Some(r))),
+				SegmentType::RangeProof => segmenter.rangeproof_segment(id).and_then(|s| d.add_rangeproof_segment(s)),
+				SegmentType::Kernel => segmenter.kernel_segment(id).and_then(|s| d.add_kernel_segment(s)),
+			};
+			if let Err(e) = r {
+				return Err(format!("honest {:?} segment ({},{}) not served / refused: {}", sid.segment_type, id.height, id.idx, error_class(&e)));
+			}
+		}
+		match catch(AssertUnwindSafe(|| d.apply_next_segments())) {
+			Ok(_) => {}
+			Err(m) => return Err(format!("apply_next_segments panicked: {}", m)),
+		}
+		if matches!(d.check_progress(Arc::new(SyncState::new())), Ok(true)) {
+			break;
+		}
+	}
+	let guard = deseg.read();
+	let d = guard.as_ref().ok_or("no desegmenter")?;
+	d.check_update_leaf_set_state().map_err(|e| format!("check_update_leaf_set_state: {}", error_class(&e)))?;
+	match catch(AssertUnwindSafe(|| d.validate_complete_state(Arc::new(SyncState::new()), Arc::new(StopState::new())))) {
+		Ok(Ok(())) => Ok(rounds),
+		Ok(Err(e)) => Err(format!("validate_complete_state: {}", error_class(&e))),
+		Err(m) => Err(format!("validate_complete_state panicked: {}", m)),
+	}
+}
+
+/// grow the source chain by `n` blocks on top of `tip`, each spending up to two outputs that are
+/// unspent (and mature) at the head -- outputs the archive header still counts as unspent
+fn grow(kit: &mut Kit, rng: &mut Rng, st: &mut Stats, tip: &mut usize, trunk: &mut Vec<usize>, n: u64) {
+	for _ in 0..n {
+		let h = kit.blks[*tip].height + 1;
+		let mut specs = vec![];
+		let mut used: BTreeSet<usize> = BTreeSet::new();
+		for _ in 0..2 {
+			let cands: Vec<usize> = kit
+				.outs
+				.iter()
+				.filter(|o| o.value > 5000 && !used.contains(&o.id))
+				.filter(|o| match kit.builder().get_unspent(o.commit) {
+					Ok(Some((_, cp))) => !o.coinbase || h >= cp.height + 3,
+					_ => false,
+				})
+				.map(|o| o.id)
+				.collect();
+			if cands.is_empty() {
+				break;
+			}
+			// prefer old outputs: they sit below the archive header
+			let o = cands[rng.below((cands.len() as u64 + 1) / 2) as usize];
+			used.insert(o);
+			let v = kit.outs[o].value;
+			let a = rng.range(1, v / 2);
+			specs.push(TxSpec { inputs: vec![o], outputs: vec![(a, None), (v - a - 200, None)], kernel: KSpec::Plain(200) });
+		}
+		match kit.new_block(*tip, 2, &specs) {
+			Ok(id) => {
+				*tip = id;
+				trunk.push(id);
+				st.add("grow:spends", specs.len() as u64);
+			}
+			Err(e) => st.inc(&format!("generator:{}", e)),
+		}
+	}
+}
+
+fn zip_mode(out: &mut Out, rng: &mut Rng, thorough: bool) {
+	let work = std::env::var("VERIF_WORK").expect("VERIF_WORK not set");
+	let mut st = Stats::default();
+	let t0 = std::time::Instant::now();
+	zip_util(out, rng, &mut st, &work, if thorough { 4000 } else { 400 });
+	st.add("millis:util", t0.elapsed().as_millis() as u64);
+
+	let scenarios: Vec<(&str, u64, bool)> = if thorough { vec![("compacted", 90, true), ("uncompacted", 46, false), ("compacted-70", 70, true)] } else { vec![("compacted", 90, true)] };
+	for (name, n_trunk, compact) in scenarios {
+		let mut kit = Kit::new(&format!("{}/zip_src_{}/chain", work, name));
+		let mut trunk = build_trunk(&mut kit, rng, &mut st, n_trunk, "small", None);
+		let mut tip = *trunk.last().unwrap();
+		if compact {
+			if let Err(e) = kit.builder().compact() {
+				out.raw(&format!("#ORACLE-FAIL C16 zip harness: source compaction failed: {}", error_class(&e)));
+			}
+		}
+		st.add("millis:source-built", t0.elapsed().as_millis() as u64);
+		let archive = kit.builder().txhashset_archive_header().unwrap();
+		if archive.height == 0 {
+			out.raw("#ORACLE-FAIL C16 zip harness: no archive header above genesis");
+			continue;
+		}
+		st.add(&format!("{}:archive-height", name), archive.height);
+		st.add(&format!("{}:head-height", name), kit.blks[tip].height);
+		// reference: a node that processed every block up to the archive header
+		let twin = Subject::new(&format!("{}/zip_twin_{}/chain", work, name), &kit.genesis);
+		for i in &trunk[1..] {
+			if kit.blks[*i].height <= archive.height {
+				twin.deliver_block(&kit.blks[*i].block);
+			}
+		}
+		let ref_obs = node_obs(&twin, &kit);
+		st.add(&format!("{}:unspent-at-archive", name), ref_obs.2.len() as u64);
+		let headers: Vec<_> = trunk[1..].iter().map(|i| kit.blks[*i].block.header.clone()).collect();
+
+		// ---- serving side: Chain::txhashset_read (twice: the second call reuses the zip)
+		let read = |kit: &Kit| -> Result<(u64, u64, Vec<u8>), String> {
+			use std::io::Read;
+			match catch(AssertUnwindSafe(|| kit.builder().txhashset_read(archive.hash()))) {
+				Ok(Ok((o, k, mut f))) => {
+					let mut b = vec![];
+					f.read_to_end(&mut b).map_err(|e| format!("read: {}", e))?;
+					Ok((o, k, b))
+				}
+				Ok(Err(e)) => Err(format!("err:{}", error_class(&e))),
+				Err(m) => Err(format!("panic:{}", m)),
+			}
+		};
+		let src_before = node_obs_c(kit.builder(), &kit);
+		let (o_sz, k_sz, bytes) = match read(&kit) {
+			Ok(x) => x,
+			Err(e) => {
+				out.raw(&format!("#ORACLE-FAIL C16 zip {}: Chain::txhashset_read of the archive header failed: {}", name, e));
+				continue;
+			}
+		};
+		if (o_sz, k_sz) != (archive.output_mmr_size, archive.kernel_mmr_size) {
+			out.raw(&format!(
+				"#ORACLE-FAIL C16 zip {}: txhashset_read answered sizes ({},{}) but the archive header has ({},{})",
+				name, o_sz, k_sz, archive.output_mmr_size, archive.kernel_mmr_size
+			));
+		}
+		match read(&kit) {
+			Ok((_, _, b2)) if b2 == bytes => st.inc("read:second-call-same-bytes"),
+			Ok(_) => out.raw(&format!("#ORACLE-FAIL C16 zip {}: a second txhashset_read for the same header returned another archive", name)),
+			Err(e) => out.raw(&format!("#ORACLE-FAIL C16 zip {}: a second txhashset_read failed: {}", name, e)),
+		}
+		let src_after = node_obs_c(kit.builder(), &kit);
+		if src_before != src_after {
+			out.raw(&format!("#ORACLE-FAIL C16 zip {}: txhashset_read changed the serving node's own state (head / roots / unspent set / validation)", name));
+		}
+		let honest = match parse_zip(&bytes) {
+			Some(v) => v,
+			None => {
+				out.raw(&format!("#ORACLE-FAIL C16 zip {}: the archive txhashset_read built cannot be parsed as a stored zip", name));
+				continue;
+			}
+		};
+		st.add(&format!("{}:archive-bytes", name), bytes.len() as u64);
+		// the entry names against `file_list` (model): exactly the listed files that exist
+		{
+			let mut present: BTreeMap<String, Vec<u8>> = BTreeMap::new();
+			let base = std::path::Path::new(&kit.dir).join("txhashset");
+			walk_files(&base, &base, &mut present);
+			let names: Vec<String> = present.keys().cloned().collect();
+			let got: Vec<String> = honest.iter().map(|e| e.name.clone()).collect();
+			out.line(&format!("seg zip archive {} [{}]", archive.hash(), names.join(",")), &format!("[{}]", got.join(",")));
+			for e in &honest {
+				if !e.crc_ok {
+					out.raw(&format!("#ORACLE-FAIL C16 zip {}: entry {} of the served archive has a wrong CRC", name, e.name));
+				}
+			}
+		}
+		let leaf_o = format!("output/pmmr_leaf.bin.{}", archive.hash());
+		let leaf_r = format!("rangeproof/pmmr_leaf.bin.{}", archive.hash());
+		let live_leaf = |tree: &str| -> Vec<u8> { std::fs::read(std::path::Path::new(&kit.dir).join("txhashset").join(tree).join("pmmr_leaf.bin")).unwrap_or_default() };
+		let get = |v: &Vec<ZEntry>, n: &str| -> Option<usize> { v.iter().position(|e| e.name == n) };
+
+		st.add("millis:archive-read", t0.elapsed().as_millis() as u64);
+		// ---- receiving side
+		// (variant name, archive, must the honest state result? Some(true) = must be accepted,
+		//  Some(false) = must be refused, None = either, as long as an accepted state is the twin's)
+		let mut variants: Vec<(String, Vec<u8>, Option<bool>)> = vec![];
+		variants.push(("honest-as-served".into(), bytes.clone(), Some(true)));
+		variants.push(("honest-rewritten".into(), write_zip(&honest), Some(true)));
+		{
+			// extra entries: ignored, never written anywhere
+			let mut v = honest.clone();
+			v.insert(0, ZEntry { name: "../../evil.bin".into(), data: vec![1, 2, 3], crc_ok: true });
+			v.push(ZEntry { name: "output/evil.bin".into(), data: vec![4, 5], crc_ok: true });
+			v.push(ZEntry { name: "/abs/evil.bin".into(), data: vec![6], crc_ok: false });
+			variants.push(("extra-entries".into(), write_zip(&v), Some(true)));
+		}
+		let drop_entry = |n: &str| -> Option<Vec<u8>> {
+			let mut v = honest.clone();
+			get(&v, n).map(|i| {
+				v.remove(i);
+				write_zip(&v)
+			})
+		};
+		if let Some(b) = drop_entry(&leaf_o) {
+			variants.push(("drop-output-leafset".into(), b, Some(false)));
+		}
+		{
+			// the leaf sets of the serving node's HEAD instead of the ones rewound to the archive header
+			let mut v = honest.clone();
+			let mut changed = false;
+			if let Some(i) = get(&v, &leaf_o) {
+				let l = live_leaf("output");
+				changed |= l != v[i].data;
+				v[i].data = l;
+			}
+			if let Some(i) = get(&v, &leaf_r) {
+				v[i].data = live_leaf("rangeproof");
+			}
+			if changed {
+				variants.push(("leafsets-of-the-head".into(), write_zip(&v), Some(false)));
+			} else {
+				st.inc("variant-skipped:head-leafset-equals-archive-leafset");
+			}
+		}
+		let flip_in = |n: &str, lo: usize, hi: usize, rng: &mut Rng| -> Option<Vec<u8>> {
+			let mut v = honest.clone();
+			let i = get(&v, n)?;
+			let hi = hi.min(v[i].data.len());
+			if lo >= hi {
+				return None;
+			}
+			let at = lo + rng.below((hi - lo) as u64) as usize;
+			v[i].data[at] ^= 1 << rng.below(8);
+			Some(write_zip(&v))
+		};
+		let out_hash_len = archive.output_mmr_size as usize * 32;
+		let ker_hash_len = archive.kernel_mmr_size as usize * 32;
+		// NB after compaction the hash files are shorter than size * 32 (pruned positions are gone)
+		if let Some(b) = flip_in("kernel/pmmr_hash.bin", 0, ker_hash_len, rng) {
+			variants.push(("flip-kernel-hash".into(), b, Some(false)));
+		}
+		if let Some(b) = flip_in("kernel/pmmr_data.bin", 0, 100, rng) {
+			variants.push(("flip-kernel-data".into(), b, None));
+		}
+		let rest: Vec<(&str, Option<Vec<u8>>, Option<bool>)> = vec![
+			("drop-rangeproof-leafset", drop_entry(&leaf_r), None),
+			("drop-output-prunelist", drop_entry("output/pmmr_prun.bin"), None),
+			("drop-kernel-data", drop_entry("kernel/pmmr_data.bin"), Some(false)),
+			("drop-output-hash", drop_entry("output/pmmr_hash.bin"), Some(false)),
+			("flip-output-hash", flip_in("output/pmmr_hash.bin", 0, out_hash_len / 2, rng), None),
+			("flip-output-data", flip_in("output/pmmr_data.bin", 0, 200, rng), None),
+			("flip-rangeproof-data", flip_in("rangeproof/pmmr_data.bin", 0, 2000, rng), None),
+			("flip-rangeproof-hash", flip_in("rangeproof/pmmr_hash.bin", 0, out_hash_len / 2, rng), None),
+			("flip-output-leafset", flip_in(&leaf_o, 0, usize::MAX, rng), None),
+			("truncated", Some(bytes[..bytes.len() / 2].to_vec()), Some(false)),
+			("garbage", Some(rng.bytes(300)), Some(false)),
+			("empty-archive", Some(write_zip(&[])), Some(false)),
+			("bad-crc-output-data", {
+				let mut v = honest.clone();
+				get(&v, "output/pmmr_data.bin").map(|i| {
+					v[i].crc_ok = false;
+					write_zip(&v)
+				})
+			}, Some(false)),
+		];
+		let mut rest: Vec<(String, Vec<u8>, Option<bool>)> = rest.into_iter().filter_map(|(n, b, m)| b.map(|b| (n.to_string(), b, m))).collect();
+		if !thorough {
+			// quick tier: two of the further variants, chosen by the seed
+			for i in (1..rest.len()).rev() {
+				let j = rng.below(i as u64 + 1) as usize;
+				rest.swap(i, j);
+			}
+			rest.truncate(2);
+		}
+		variants.extend(rest);
+
+		for (vi, (vname, vbytes, must)) in variants.iter().enumerate() {
+			let tag = format!("zip_dst_{}_{}", name, vi);
+			let dest = match fresh_receiver(&work, &tag, &kit, &headers) {
+				Some(d) => d,
+				None => {
+					out.raw("#ORACLE-FAIL C16 zip harness: header sync failed");
+					continue;
+				}
+			};
+			let before = node_obs(&dest, &kit);
+			let r = zip_write_once(&dest, &work, &tag, archive.hash(), vbytes);
+			st.inc(&format!("write[{}]:{}", vname, r.split(':').next().unwrap_or("")));
+			if r.starts_with("panic") {
+				out.raw(&format!("#ORACLE-FAIL C16 zip {}: txhashset_write panicked on archive variant {}: {}", name, vname, r));
+			}
+			// nothing may be written outside the node's own directories
+			{
+				let base = std::path::PathBuf::from(format!("{}/{}", work, tag));
+				let mut all: BTreeMap<String, Vec<u8>> = BTreeMap::new();
+				walk_files(&base, &base, &mut all);
+				let wbase = std::path::PathBuf::from(&work);
+				let mut top: BTreeMap<String, Vec<u8>> = BTreeMap::new();
+				if let Ok(rd) = std::fs::read_dir(&wbase) {
+					for e in rd.flatten() {
+						if e.path().is_file() {
+							top.insert(e.path().to_string_lossy().to_string(), vec![]);
+						}
+					}
+				}
+				for k in all.keys().chain(top.keys()) {
+					if k.contains("evil") {
+						out.raw(&format!("#ORACLE-FAIL C16 zip {}: an entry that is not on the file list was extracted: {} (variant {})", name, k, vname));
+					}
+				}
+			}
+			let after = node_obs(&dest, &kit);
+			if r == "replaced" {
+				if after != ref_obs {
+					out.raw(&format!(
+						"#ORACLE-FAIL C16 zip {}: txhashset_write accepted archive variant {} and the node's state differs from a node that processed every block: head {} vs {}, roots {} vs {}, unspent {:?} vs {:?}, full validation {} vs {}",
+						name, vname, after.0, ref_obs.0, after.1, ref_obs.1, after.2, ref_obs.2, after.3, ref_obs.3
+					));
+				}
+				// the roots it finalised are the header's
+				let roots_ok = dest.c().txhashset().read().roots().map(|r| r.validate(&archive).is_ok()).unwrap_or(false);
+				if !roots_ok {
+					out.raw(&format!("#ORACLE-FAIL C16 zip {}: state finalised by txhashset_write (variant {}) has roots other than the archive header's", name, vname));
+				}
+				if *must == Some(false) {
+					out.raw(&format!("#ORACLE-FAIL C16 zip {}: archive variant {} was accepted", name, vname));
+				}
+				if vname.starts_with("honest") {
+					out.line("seg zip write 1 1 1", "replaced");
+				}
+			} else {
+				if after != before {
+					out.raw(&format!(
+						"#ORACLE-FAIL C16 zip {}: txhashset_write refused archive variant {} ({}) but the node's state changed: head {} -> {}, roots {} -> {}",
+						name, vname, r, before.0, after.0, before.1, after.1
+					));
+				}
+				if *must == Some(true) {
+					out.raw(&format!("#ORACLE-FAIL C16 zip {}: honest archive (variant {}) was refused: {}", name, vname, r));
+					if vname.starts_with("honest") {
+						out.line("seg zip write 1 1 1", &r);
+					}
+				} else {
+					// a refused archive must not spoil the next attempt: the honest one still goes through
+					let r2 = zip_write_once(&dest, &work, &tag, archive.hash(), &bytes);
+					st.inc(&format!("retry-after[{}]:{}", vname, r2.split(':').next().unwrap_or("")));
+					let after2 = node_obs(&dest, &kit);
+					if r2 != "replaced" || after2 != ref_obs {
+						out.raw(&format!(
+							"#ORACLE-FAIL C16 zip {}: after the refused archive variant {} the honest archive no longer leads to the state of a node that processed every block: {} (roots {} vs {})",
+							name, vname, r2, after2.1, ref_obs.1
+						));
+					}
+				}
+			}
+			drop(dest);
+			let _ = std::fs::remove_dir_all(format!("{}/{}", work, tag));
+		}
+		// not needed: a node that has the blocks (the twin: its fork point is its header head)
+		{
+			let before = node_obs(&twin, &kit);
+			let r = zip_write_once(&twin, &work, &format!("zip_twin_{}", name), archive.hash(), &bytes);
+			out.line("seg zip write 0 1 1", &r);
+			if node_obs(&twin, &kit) != before {
+				out.raw(&format!("#ORACLE-FAIL C16 zip {}: an archive that was not needed changed the node's state", name));
+			}
+		}
+		// unknown header: "bannable"
+		{
+			let tag = format!("zip_dst_{}_unknown", name);
+			if let Some(dest) = fresh_receiver(&work, &tag, &kit, &headers) {
+				let before = node_obs(&dest, &kit);
+				let r = zip_write_once(&dest, &work, &tag, Hash::from_vec(&rng.bytes(32)), &bytes);
+				out.line("seg zip write 1 0 1", &r);
+				if node_obs(&dest, &kit) != before {
+					out.raw(&format!("#ORACLE-FAIL C16 zip {}: an archive for an unknown header changed the node's state", name));
+				}
+			}
+			let _ = std::fs::remove_dir_all(format!("{}/{}", work, tag));
+		}
+
+		st.add("millis:variants-done", t0.elapsed().as_millis() as u64);
+		// ---- life cycle of the cached segmenter while the serving chain grows
+		let seg_a = match kit.builder().segmenter() {
+			Ok(s) => s,
+			Err(e) => {
+				out.raw(&format!("#ORACLE-FAIL C16 zip {}: Chain::segmenter failed: {}", name, error_class(&e)));
+				continue;
+			}
+		};
+		if seg_a.header().hash() != archive.hash() {
+			out.raw(&format!("#ORACLE-FAIL C16 lifecycle {}: the segmenter's header is not the archive header", name));
+		}
+		let mut twin_at = archive.height;
+		let mut prev_archive = archive.clone();
+		let steps: Vec<(u64, bool)> = if thorough { vec![(4, false), (7, false), (10, true), (3, false)] } else { vec![(4, false), (8, compact)] };
+		for (si, (n_blocks, compact_now)) in steps.iter().enumerate() {
+			grow(&mut kit, rng, &mut st, &mut tip, &mut trunk, *n_blocks);
+			if *compact_now {
+				if let Err(e) = kit.builder().compact() {
+					out.raw(&format!("#ORACLE-FAIL C16 lifecycle harness: source compaction failed: {}", error_class(&e)));
+				}
+			}
+			let now_archive = kit.builder().txhashset_archive_header().unwrap();
+			let moved = now_archive.hash() != prev_archive.hash();
+			st.inc(&format!("lifecycle:archive-header-{}", if moved { "moved" } else { "same" }));
+			let sg = match kit.builder().segmenter() {
+				Ok(s) => s,
+				Err(e) => {
+					out.raw(&format!("#ORACLE-FAIL C16 lifecycle {}: Chain::segmenter failed after the chain grew to height {}: {}", name, kit.blks[tip].height, error_class(&e)));
+					break;
+				}
+			};
+			if sg.header().hash() != now_archive.hash() {
+				out.raw(&format!(
+					"#ORACLE-FAIL C16 lifecycle {}: head at {}: Chain::segmenter serves the header at height {} but the archive header is at height {} (stale cached segmenter)",
+					name,
+					kit.blks[tip].height,
+					sg.header().height,
+					now_archive.height
+				));
+			}
+			// the twin follows the archive header
+			for i in &trunk[1..] {
+				let hh = kit.blks[*i].height;
+				if hh > twin_at && hh <= now_archive.height {
+					twin.deliver_block(&kit.blks[*i].block);
+				}
+			}
+			twin_at = twin_at.max(now_archive.height);
+			let ref_now = node_obs(&twin, &kit);
+			let headers: Vec<_> = trunk[1..].iter().map(|i| kit.blks[*i].block.header.clone()).collect();
+			let tag = format!("life_dst_{}_{}", name, si);
+			if let Some(dest) = fresh_receiver(&work, &tag, &kit, &headers) {
+				let ah = dest.c().txhashset_archive_header_header_only().unwrap();
+				if ah.hash() != now_archive.hash() {
+					out.raw("#ORACLE-FAIL C16 lifecycle harness: archive headers of source and receiver differ");
+				}
+				match plain_pibd(&dest, &sg, &ah) {
+					Ok(rounds) => {
+						st.add("lifecycle:rounds", rounds);
+						let got = node_obs(&dest, &kit);
+						if got != ref_now {
+							out.raw(&format!(
+								"#ORACLE-FAIL C16 lifecycle {}: head at {} (archive header at {}, {} blocks with spends after the first segmenter was made{}): state synced from Chain::segmenter differs from block-by-block: roots {} vs {}, unspent {:?} vs {:?}, validation {} vs {}",
+								name,
+								kit.blks[tip].height,
+								now_archive.height,
+								kit.blks[tip].height - n_trunk,
+								if *compact_now { ", compacted" } else { "" },
+								got.1,
+								ref_now.1,
+								got.2,
+								ref_now.2,
+								got.3,
+								ref_now.3
+							));
+						} else {
+							st.inc("lifecycle:receivers-equal-to-block-by-block");
+						}
+					}
+					Err(e) => out.raw(&format!(
+						"#ORACLE-FAIL C16 lifecycle {}: head at {} (archive header at {}): honest state sync from Chain::segmenter failed: {}",
+						name,
+						kit.blks[tip].height,
+						now_archive.height,
+						e
+					)),
+				}
+				// the same archive through the zip path
+				match catch(AssertUnwindSafe(|| kit.builder().txhashset_read(now_archive.hash()))) {
+					Ok(Ok((_, _, mut f))) => {
+						use std::io::Read;
+						let mut b = vec![];
+						let _ = f.read_to_end(&mut b);
+						let tag2 = format!("life_zip_{}_{}", name, si);
+						if let Some(d2) = fresh_receiver(&work, &tag2, &kit, &headers) {
+							let r = zip_write_once(&d2, &work, &tag2, now_archive.hash(), &b);
+							let got = node_obs(&d2, &kit);
+							if r != "replaced" || got != ref_now {
+								out.raw(&format!(
+									"#ORACLE-FAIL C16 lifecycle {}: head at {} (archive header at {}): the state archive served by txhashset_read gives {} and roots {} vs block-by-block {}",
+									name,
+									kit.blks[tip].height,
+									now_archive.height,
+									r,
+									got.1,
+									ref_now.1
+								));
+							} else {
+								st.inc("lifecycle:zip-receivers-equal-to-block-by-block");
+							}
+						}
+						let _ = std::fs::remove_dir_all(format!("{}/{}", work, tag2));
+					}
+					Ok(Err(e)) => out.raw(&format!("#ORACLE-FAIL C16 lifecycle {}: txhashset_read failed after the chain grew: {}", name, error_class(&e))),
+					Err(m) => out.raw(&format!("#ORACLE-FAIL C16 lifecycle {}: txhashset_read panicked: {}", name, m)),
+				}
+			}
+			let _ = std::fs::remove_dir_all(format!("{}/{}", work, tag));
+			prev_archive = now_archive;
+		}
+	}
+	st.add("millis:total", t0.elapsed().as_millis() as u64);
+	st.dump(out, "zip");
+}
+
 fn main() {
 	if std::env::var("VERIF_DEBUG").is_err() {
 		quiet_panics();
@@ -3298,6 +4139,9 @@ fn main() {
 	}
 	if mode == "assembly" {
 		assembly_mode(&mut out, &mut rng, thorough);
+	}
+	if mode == "zip" {
+		zip_mode(&mut out, &mut rng, thorough);
 	}
 	if mode == "chunks" {
 		chunks_mode(&mut out, &mut rng, thorough);
